@@ -6,6 +6,10 @@
   the two code templates (`periodicT`, `symmT`), the names / `distinct` flags / parameter
   defaults of the table.
 
+  The loop `_generate_window_strategies` is regenerated too (translator T2b, `ALV/Gen/C14Src.lean`: a program value
+  run by the interpreter of `ALV/Model/C14Loop.lean`); `Props.C14.src_generate_window_strategies_row` /
+  `src_generated_is_model` prove that `genStep` / `generated` below ARE that regenerated loop.
+
   What is hand written here: `_generate_window_strategies` — the loop that `exec`s one
   template per (row, dictionary), registers the function under all its names with
   `sdict.strategy(*names)`, short-cuts non-distinct rows with `wsymm[sname] = window[sname]; break`,
@@ -81,10 +85,10 @@ def genStep (st : State) (row : Row) : State :=
     match window.get sname, wsymm.get sname with
     | some w, some s =>
       { window := window, wsymm := wsymm,
-        -- wsymm[sname].periodic = window[sname].periodic = window[sname]
-        periodicAttr := setAttr (setAttr st.periodicAttr w w) s w,
+        -- wsymm[sname].periodic = window[sname].periodic = window[sname]   (targets are assigned left to right)
+        periodicAttr := setAttr (setAttr st.periodicAttr s w) w w,
         -- wsymm[sname].symm = window[sname].symm = wsymm[sname]
-        symmAttr := setAttr (setAttr st.symmAttr w s) s s }
+        symmAttr := setAttr (setAttr st.symmAttr s s) w s }
     | _, _ => { st with window := window, wsymm := wsymm }
 
 /-- the state after `_generate_window_strategies()` -/
